@@ -317,8 +317,16 @@ func (p *c02) RunCase(ctx *runner.Ctx) runner.CaseResult {
 	}
 	if ctx.Case%20 == 13 {
 		more := []adapt.Op{}
-		for i := range extras {
-			more = append(more, adapt.Op{Kind: adapt.OpUpdateTable, Table: spec.Name, Chg: []adapt.IndexChange{{Create: &extras[i]}}}, ixRandomWrite(r, spec.Name, 300+2*i), ixRandomWrite(r, spec.Name, 301+2*i))
+		for i := 0; i < len(extras); {
+			// (one, two or three indexes per UpdateTable request: every one of them is filled from the items the table holds)
+			chg := []adapt.IndexChange{}
+			for k := 1 + r.Intn(3); k > 0 && i < len(extras); k, i = k-1, i+1 {
+				chg = append(chg, adapt.IndexChange{Create: &extras[i]})
+			}
+			if len(chg) > 1 {
+				x.r.Counters["updatetable_requests_creating_several_indexes"]++
+			}
+			more = append(more, adapt.Op{Kind: adapt.OpUpdateTable, Table: spec.Name, Chg: chg}, ixRandomWrite(r, spec.Name, 300+2*i), ixRandomWrite(r, spec.Name, 301+2*i))
 		}
 		keys := mon.KeyLog{}
 		for _, it := range m.Tables[spec.Name].Items {
